@@ -16,7 +16,13 @@ COH_TOL = 1e-9
 
 _lock = threading.Lock()
 EVENTS: list = []
-_state = {"suppress": 0, "in_step": 0, "rank": 0}
+_state = {"in_step": 0, "rank": 0}
+_tls = threading.local()     # the suppress switch acts at trace time, in the Python thread of the rank that is tracing:
+                             # a process-wide counter let one rank's suppressed section swallow another rank's events
+
+
+def _suppressed():
+    return getattr(_tls, "suppress", 0) > 0
 
 
 def reset():
@@ -63,10 +69,10 @@ class suppress:
     """trace-time switch: proxied trial methods called while it is on insert no events"""
 
     def __enter__(self):
-        _state["suppress"] += 1
+        _tls.suppress = getattr(_tls, "suppress", 0) + 1
 
     def __exit__(self, *a):
-        _state["suppress"] -= 1
+        _tls.suppress = getattr(_tls, "suppress", 0) - 1
 
 
 # ------------------------------------------------------------------------------------------ factories
@@ -83,13 +89,13 @@ def trial_proxy(base):
 
         def calc_overlap(self, walkers, wave_data):
             out = super().calc_overlap(walkers, wave_data)
-            if not _state["suppress"]:
+            if not _suppressed():
                 cb("Ovlp", static={"rank": rank_of(self)}, ov=out)
             return out
 
         def calc_energy(self, walkers, ham_data, wave_data):
             out = super().calc_energy(walkers, ham_data, wave_data)
-            if not _state["suppress"]:
+            if not _suppressed():
                 cb("Energy", static={"rank": rank_of(self)}, e=out)
             return out
 
@@ -98,7 +104,7 @@ def trial_proxy(base):
 
         def optimize(self, ham_data, wave_data):
             out = super().optimize(ham_data, wave_data)
-            if not _state["suppress"]:
+            if not _suppressed():
                 cb("Opt", static={"rank": rank_of(self)})
             return out
 
@@ -159,9 +165,9 @@ def prop_proxy(base):
             out = super().orthonormalize_walkers(prop_data)
             w1 = out["walkers"]
             if isinstance(w1, (list, tuple)):
-                ch = jnp.maximum(jnp.max(jnp.abs(w1[0] - w0[0])), jnp.max(jnp.abs(w1[1] - w0[1])))
+                ch = jnp.maximum(jnp.max(jnp.abs(w1[0] - w0[0]), initial=0.0), jnp.max(jnp.abs(w1[1] - w0[1]), initial=0.0))  # a spin block may be empty
             else:
-                ch = jnp.max(jnp.abs(w1 - w0))
+                ch = jnp.max(jnp.abs(w1 - w0), initial=0.0)
             cb("QR", static={"rank": rank_of(self)}, change=ch)
             return out
 
